@@ -182,6 +182,17 @@ func (ex *Exec) sprintf(format string, args []Value) Value {
 				out.segs = append(out.segs, Seg{opaque: true, ln: l, wd: l})
 				ex.stubsUsed["float:rendering free (1..24 ASCII)"]++
 			}
+		case 'c':
+			x := a.(*Term)
+			// a byte below 0x80 renders as itself; above, as a two-byte UTF-8 sequence
+			b8 := ex.ts.Extract(ex.ts.ZExt(x, 64), 7, 0)
+			if ex.decide(ex.ts.Bin(OpULt, ex.ts.ZExt(x, 64), ex.ts.Const(64, 0x80))) {
+				out = ex.ropeCat(out, ex.toRope(Str{[]*Term{b8}}))
+			} else {
+				hi := ex.ts.Bin(OpBOr, ex.ts.Const(8, 0xc0), ex.ts.Extract(ex.ts.Bin(OpLShr, ex.ts.ZExt(x, 64), ex.ts.Const(64, 6)), 7, 0))
+				lo := ex.ts.Bin(OpBOr, ex.ts.Const(8, 0x80), ex.ts.Bin(OpBAnd, b8, ex.ts.Const(8, 0x3f)))
+				out = ex.ropeCat(out, ex.toRope(Str{[]*Term{hi, lo}}))
+			}
 		case 'x':
 			var bs []*Term
 			switch x := a.(type) {
